@@ -1020,8 +1020,29 @@ func ruleV3(c *Ctx) *RuleResult {
 					}
 				}
 			}
+			// strings.Cut(s, sep) with a non-empty constant separator: `after` is a strict suffix when found, "" otherwise
+			if ex, ok := rv.(*ssa.Extract); ok && ex.Index == 1 {
+				if call, ok := ex.Tuple.(*ssa.Call); ok && isFuncNamed(call.Call.StaticCallee(), "strings", "Cut") && call.Call.Args[0] == ssa.Value(readLine.Params[0]) {
+					if sep, ok := constString(call.Call.Args[1]); ok && sep != "" {
+						good = true
+					}
+				}
+			}
+			unknown := false
+			if !good {
+				// anything that is not the argument itself or a slice of it that may be the whole string is a form the rule does not know
+				switch x := rv.(type) {
+				case *ssa.Parameter:
+				case *ssa.Slice:
+					_ = x
+				default:
+					unknown = true
+				}
+			}
 			if good {
 				r.ok(key, c.Pos(ret.Pos()), FuncName(readLine), what, "s[i+1:] or \"\"")
+			} else if unknown {
+				r.undecided("V3: the remainder returned by ReadLine at %s is computed in a form not known to the rule (%s)", c.Pos(ret.Pos()), rv.String())
 			} else {
 				r.fail(key, c.Pos(ret.Pos()), FuncName(readLine), what, "the remainder is "+rv.String()+": the decoder loops that advance with ReadLine never reach the end of such an input and spin forever")
 			}
